@@ -8,7 +8,7 @@ CHECKS=${@:-$PROP}
 export GOFLAGS=-mod=mod GOPROXY=off GOSUMDB=off GOTOOLCHAIN=local
 PATCH=$OUT/patch$K.diff
 DEMO=$(ls $OUT/demo${K}_test.go 2>/dev/null)
-DEST=/verif/seeded/$PROP-m$K
+DEST=/verif/seeded/$PROP-${TAG:-m}$K
 cd /repo || exit 2
 if [ -n "$(git status --porcelain)" ]; then echo "repo not clean"; exit 2; fi
 restore() { git -C /repo checkout -q -- . ; git -C /repo clean -fdq; }
